@@ -122,6 +122,7 @@ def crystal_check(ctx):
     failures = []
     samples = []
     runs = []
+    multi = 0
     for p in plans(pid, tier):
         r = crystal_run("%s_%s" % (pid, p["tag"]), p["groups"], p["shapes"], p["ax"], p["b"], p["site"],
                         p["orient"], p["invs"], D=p.get("D", 8), timeout=p.get("timeout", 6000 if tier == "thorough" else 3000))
@@ -134,6 +135,7 @@ def crystal_check(ctx):
         emitted += r["n_emitted"]
         res = replay("crystal", r)
         t = res[pid]
+        multi += res.get("multi_site_lines", 0)
         checked += t["checked"]
         nontrivial += t["nontrivial"]
         skipped += t["skipped"]
@@ -211,7 +213,12 @@ def crystal_check(ctx):
                          "C02": "asserted_on = grid states whose exact verdict is apart (score must equal copies*area/cell area); touching states and lens-shaped molecules are not asserted",
                          "C04": "asserted_on = every state: real cartesian placements (hard and LJ) equal the model crystal, which TLC shows symmetric (invariant Symmetric)",
                          "C15": "asserted_on = every state: real relative placements (hard and LJ) equal the copies of the site, inside [-1/2,1/2)^2"}[pid],
-                "critical_states": crit, "enumerations": runs, "exhaustive": True}
+                "critical_states": crit, "enumerations": runs, "exhaustive": True,
+                "multi_site": {"states_replayed_as_p1_with_one_site_per_copy": multi,
+                               "rule": "Crystal!AsSites: for every state whose shape is its own mirror image or whose group has proper operations only (TLC: SitesLemma), the real code is run a second time on the p1 description with N occupied sites; verdict, score and placements must be those of the one-site description"}}
+    if multi == 0:
+        vp.log("TOOL-ERROR: no state was replayed in its multi-site description")
+        return 2
     if edges:
         coverage["float_edges"] = edges
     if c04:
@@ -623,7 +630,7 @@ def lj_check(ctx):
     cfg = "SPECIFICATION Spec\nCONSTANTS\n  EpsSet <- GEps\n  QSet <- GQ\n  CutSet <- GCut\nINVARIANTS ModelOK Emit\nCHECK_DEADLOCK FALSE\n"
     r = vp.run_tlc("GenLJ", cfg, "C13_pair", workers=4, timeout=1200, root_text=vp.gen_module("GenLJ", "MC_LJ", defs))
     offs = [-4, -2, -1, 0, 1, 2, 3, 5] + ([-9, -6, 4, 7, 10] if th else [])
-    mdefs = {"GOff": vp.tla_set(offs), "GC2": vp.tla_set([0, 12] + ([6, 30] if th else []))}
+    mdefs = {"GOff": vp.tla_set(offs), "GC2": vp.tla_set([0, 6, 12] + ([30] if th else []))}
     mcfg = "SPECIFICATION Spec\nCONSTANTS\n  OffSet <- GOff\n  CutSet <- GC2\nINVARIANTS ModelOK Emit\nCHECK_DEADLOCK FALSE\n"
     rm = vp.run_tlc("GenLJMol", mcfg, "C13_mol", workers=8, timeout=1200, xmx="8g", deque=False,
                     root_text=vp.gen_module("GenLJMol", "MC_LJMol", mdefs))
@@ -782,10 +789,11 @@ def output_check(ctx):
                 "samples": [sample],
                 "svg_grid_states": r["n_emitted"], "use_elements_checked": t["use_elements_checked"],
                 "json_roundtrips_on_grid_states": t["json_roundtrips"],
+                "several_site_states_drawn_and_roundtripped": t.get("several_site_states", 0),
                 "json_roundtrips_on_random_finite_values": jr["states_checked"],
                 "saveload_continuation_runs_validated": tr["runs"], "saveload_events": tr["events"],
                 "sets": r["defs"], "exhaustive": True,
-                "rule": "svg: every grid state (7 groups, 4 shapes, rectangular and sheared cells, rational orientations), as hard and as LJ state: the <use href=#mol> matrices must be TLC's placements and their 8 nearest images as a multiset, the <use href=#cell> ones the 9 lattice translations; "
+                "rule": "svg: every grid state (7 groups, 4 shapes, rectangular and sheared cells, rational orientations), as hard and as LJ state: the <use href=#mol> matrices must be TLC's placements and their 8 nearest images as a multiset, the <use href=#cell> ones the 9 lattice translations; the same for the p1 description with one occupied site per copy (Crystal!AsSites), hard and LJ; "
                         "json: score bits, placement bits and re-serialisation identical after one write/read; "
                         "continuation: stage 2 from the JSON copy must repeat stage 2 from the state itself evaluation by evaluation (TLC formulas C11Same, C11SameDone); every score of the reference continuation equals the score of a fresh copy of the state at that moment (C11Fresh)"}
     rc = finish(pid, tier, seed, t0, coverage, failures,
